@@ -17,6 +17,10 @@ import vlib, implib, docs, enginelib as E, fixlib as F
 CLEANISH = "# T\n\nText. \n\n\nMore\n"          # line-fixable (MD009, MD012)
 TOKFIX = "# T\n\n- a\n+ b\n"                   # token-fixable (MD004)
 VICTIM = "# V\n\nvictim TRIG \n\n\nx\n"         # also fixable; carries the probe trigger
+# victim of a parser failure in the MIDDLE of the document: what the lines before the failing one leave behind (pragma lines that name
+# the rules the other files trigger, a link reference definition, an open list) must not reach the files processed afterwards
+VICTIM_MID = ("<!-- pyml disable-num-lines 50 md009,md012,md004,md047,md041-->\n# V\n\n[t]: /u\n\n- victim TRIG \n\n"
+              "<!-- pyml disable-next-line md004-->\nPARSERBOOM\nx\n")
 
 
 def expected_alone(ws, text, mode):
@@ -31,11 +35,13 @@ def expected_alone(ws, text, mode):
 def fault_runs(ctx, thorough):
     """(callback, k) x failing file position in a 3-file run x scan/fix x continue/stop, plus parser and decode faults."""
     events = [("start", 1), ("token", 1), ("token", 3), ("line", 1), ("line", 2), ("line", 4), ("done", 1)]
-    kinds = [("plugin", e, k) for e, k in events] + [("parser", None, None), ("decode", None, None)]
+    kinds = [("plugin", e, k) for e, k in events] + [("parser", None, None), ("parser-mid", None, None), ("decode", None, None)]
     combos = [c for c in itertools.product(kinds, (0, 1, 2), ("scan", "fix"), (True, False), ("default", "minimal"))
               if not (c[0][1] == "start" and c[2] == "fix")]   # start calls carry no file name: in fix mode (several per pass) they cannot be attributed
     if not thorough:
-        combos = docs.sample(ctx.rng, combos, 56)
+        # every parser-failure run that continues with other files is always included (state left behind by a failed parse)
+        always = [c for c in combos if c[0][0] in ("parser", "parser-mid") and c[3]]
+        combos = always + docs.sample(ctx.rng, [c for c in combos if c not in always], 44)
     fails, evals, samples, dist = [], 0, [], {}
     ctl = implib.probe_ctl()
     with implib.workspace() as ws:
@@ -57,6 +63,8 @@ def fault_runs(ctx, thorough):
                     implib.write(os.path.join(d, fn), b"\xff\xfe\x00bad")
                 elif n == "v" and kind == "parser":
                     implib.write(os.path.join(d, fn), texts[n] + "PARSERBOOM\n")
+                elif n == "v" and kind == "parser-mid":
+                    implib.write(os.path.join(d, fn), VICTIM_MID)
                 else:
                     implib.write(os.path.join(d, fn), texts[n])
             vname = names[pos]
@@ -79,6 +87,9 @@ def fault_runs(ctx, thorough):
                 ctl["raise"][("zzz997", ev)] = armed
             if kind == "parser":
                 with implib.parser_fault():
+                    (code, out, err), _ops = F.record_ops(lambda: vlib.run_main(argv, cwd=d), d, set(names))
+            elif kind == "parser-mid":
+                with implib.parser_fault_midway():
                     (code, out, err), _ops = F.record_ops(lambda: vlib.run_main(argv, cwd=d), d, set(names))
             else:
                 (code, out, err), _ops = F.record_ops(lambda: vlib.run_main(argv, cwd=d), d, set(names))
@@ -305,7 +316,7 @@ def footprint(ctx, case, sym, det):
         fid = "F-DECODE"
     if sym == "target-damaged-by-kill" and case.get("protocol") == "truncate+copy":
         fid = "F-COPY"
-    if fault == "parser" and sym == "failing-file-not-named" and not case.get("continue"):
+    if fault in ("parser", "parser-mid") and sym == "failing-file-not-named" and not case.get("continue"):
         fid = "F-TOKERR-UNNAMED"
     return next((f for f in ctx.findings if f["id"] == fid), None) if fid else None
 
